@@ -27,6 +27,9 @@ type ValState struct {
 	// x/staking removes a jailed validator from the power index at once, but its status, its last power and the
 	// last total power are only updated by the staking EndBlocker of that block (which runs before mhub2's).
 	Jailed bool `json:"jailed,omitempty"`
+	// Removed: the validator record no longer exists (it finished unbonding with no delegation left); the operator
+	// may create the validator again later
+	Removed bool `json:"removed,omitempty"`
 }
 
 // Staking is a scripted types.StakingKeeper. The zero Order returns bonded
@@ -43,7 +46,7 @@ func (s *Staking) Clone() []ValState { return append([]ValState(nil), s.Vals...)
 func (s *Staking) find(oper sdk.ValAddress) *ValState {
 	o := oper.String()
 	for i := range s.Vals {
-		if s.Vals[i].Oper == o {
+		if s.Vals[i].Oper == o && !s.Vals[i].Removed {
 			return &s.Vals[i]
 		}
 	}
@@ -69,7 +72,7 @@ func (s *Staking) mk(v ValState) stakingtypes.Validator {
 func (s *Staking) bonded() []ValState {
 	var out []ValState
 	for _, v := range s.Vals {
-		if v.Bonded && !v.Jailed {
+		if v.Bonded && !v.Jailed && !v.Removed {
 			out = append(out, v)
 		}
 	}
@@ -107,7 +110,7 @@ func (s *Staking) GetLastValidatorPower(ctx sdk.Context, operator sdk.ValAddress
 func (s *Staking) GetLastTotalPower(ctx sdk.Context) sdk.Int {
 	t := sdk.ZeroInt()
 	for _, v := range s.Vals {
-		if v.Bonded {
+		if v.Bonded && !v.Removed {
 			t = t.Add(sdk.NewInt(v.Power))
 		}
 	}
@@ -116,6 +119,9 @@ func (s *Staking) GetLastTotalPower(ctx sdk.Context) sdk.Int {
 
 func (s *Staking) IterateValidators(ctx sdk.Context, cb func(int64, stakingtypes.ValidatorI) bool) {
 	for i, v := range s.Vals {
+		if v.Removed {
+			continue
+		}
 		if cb(int64(i), s.mk(v)) {
 			return
 		}
